@@ -181,7 +181,7 @@ mod cand {
         // ---- from_sdp on valid and damaged lines
         let mut muts: BTreeMap<String, u64> = BTreeMap::new();
         for l in lines.clone() { from_sdp_case(out, &l, "cand-from_sdp-valid", None); }
-        let n = if thorough { 20000 } else { 1500 };
+        let n = if thorough { 6000 } else { 1000 };
         for _ in 0..n {
             let base = r.pick(&lines).clone();
             let (l, how) = mutate_line(r, &base);
@@ -392,7 +392,7 @@ fn pair_cases(out: &mut Out, r: &mut Rng, thorough: bool, dist: &mut BTreeMap<St
     pairs.push((u32::MAX, u32::MAX - 1, "corpus"));
     pairs.push((u32::MAX - 1, u32::MAX, "corpus"));
     for &a in &bounds { for &b in &bounds { pairs.push((a, b, "boundary")); } }
-    let n = if thorough { 60000 } else { 4000 };
+    let n = if thorough { 20000 } else { 4000 };
     for i in 0..n {
         let a = r.next() as u32;
         let b = match i % 4 { 0 => a, 1 => a.wrapping_add(1), 2 => a.wrapping_sub(1), _ => r.next() as u32 };
@@ -917,7 +917,7 @@ fn stun_cases(out: &mut Out, r: &mut Rng, thorough: bool, summary: &mut serde_js
         if let Some(b) = stun_encode_case(out, &m, Some(b"pw".to_vec()), true, "stun-corpus") { pool.push(b); }
     }
     // ---- generated messages
-    let n = if thorough { 20000 } else { 1500 };
+    let n = if thorough { 6000 } else { 900 };
     for i in 0..n {
         let na = match r.below(8) { 0 => 0, 1 => 1, 7 => r.range(6, 12), _ => r.range(2, 5) } as usize;
         let mut txid = [0u8; 12];
@@ -928,7 +928,7 @@ fn stun_cases(out: &mut Out, r: &mut Rng, thorough: bool, summary: &mut serde_js
         if let Some(b) = stun_encode_case(out, &m, key, fp, "stun-encode") { if i % 3 == 0 { pool.push(b); } }
     }
     // ---- messages built by webrtc-rs stun, decoded by rustrtc
-    let n = if thorough { 10000 } else { 1000 };
+    let n = if thorough { 4000 } else { 700 };
     for _ in 0..n {
         let rb = ref_build(r, &mut g);
         let check = |d: &StunDecoded| -> Option<String> {
@@ -949,7 +949,7 @@ fn stun_cases(out: &mut Out, r: &mut Rng, thorough: bool, summary: &mut serde_js
         pool.push(rb.bytes.clone());
     }
     // ---- malformed stream (model correspondence + no panic)
-    let n = if thorough { 20000 } else { 1500 };
+    let n = if thorough { 6000 } else { 1000 };
     let mut muts: BTreeMap<String, u64> = BTreeMap::new();
     for _ in 0..n {
         let base = r.pick(&pool).clone();
